@@ -26,7 +26,7 @@ type SimNet struct {
 	NoCoalesce bool // schedule classes A / A': a sender never holds two payloads in one bucket (the bucket is put on the wire first)
 	Unicasts   map[[2]int]int
 	// Observe is called for every state payload handed to a receiver (decoded by the harness).
-	Observe func(from, to int, kind string, st *event.State)
+	Observe  func(from, to int, kind string, st *event.State)
 	PanicMsg string
 }
 
